@@ -6,6 +6,7 @@ open NauyacaVerif.Drv TofuTxn
 /-! Line protocol of M-Tofu transactions (TAB or space separated):
 
     txn <store> <op> <k|all>         → ok <store'> <script> <outcome>
+    txnall <store> <op>              → ok <store'> <script> <outcome> <crash 0>/<crash 1>/…   (`~` = no boundary)
     roundtrip <store> <now>          → ok <store'> <keys>
 
   store   ::= - | row;row;…          row   ::= <host-cps>:<port>:<fp>:<first>:<last>
@@ -14,7 +15,7 @@ open NauyacaVerif.Drv TofuTxn
             | import:<merge 0|1>:<now>:<cb>:<file>
   cb      ::= n | [usr]*             (n = no callback; letter i = what the callback does at entry i)
   file    ::= X | - | entry;entry;…  entry ::= <host>/<port int>/<portIsInt>/<fp>/<fpOk>/<first>/<missing>
-  script  ::= - | txn|txn…           txn   ::= stmt;stmt;…   (empty txn = `_`)
+  script  ::= - | txn|txn…           txn   ::= stmt;stmt;…
   outcome ::= ok | ok:<added>,<updated>,<skipped> | fail:<kind>      (of the complete operation) -/
 
 def natOf? (s : String) : Option Nat := if s.isEmpty || !s.all Char.isDigit then none else some s.toNat!
@@ -89,9 +90,10 @@ def showStmt : Stmt → String
   | .deleteAll => "DA"
   | .commit => "K"
 
+/-- connections on which no statement was issued are invisible to the shim: they are not shown -/
 def showScript (sc : Script) : String :=
-  if sc.isEmpty then "-"
-  else "|".intercalate (sc.map (fun t => if t.isEmpty then "_" else ";".intercalate (t.map showStmt)))
+  if (sc.filter (fun t => !t.isEmpty)).isEmpty then "-"
+  else "|".intercalate ((sc.filter (fun t => !t.isEmpty)).map (fun t => ";".intercalate (t.map showStmt)))
 
 def showErr : Err → String
   | .missing => "missing" | .badPort => "badport" | .badFp => "badfp" | .callback => "callback" | .unreadable => "unreadable"
@@ -117,6 +119,14 @@ def handle : List String → Option String
       match res with
       | some s' => some s!"ok {showStore s'} {showScript sc} {outcome o s}"
       | none => some "bad-op"
+    | _, _ => some "bad-op"
+  | ["txnall", st, op] =>
+    match parseStore st, parseOp op with
+    | some s, some o =>
+      let sc := script o s
+      let n := sc.size
+      let crashes := if n == 0 then "~" else "/".intercalate ((List.range n).map (fun k => showStore (crashAt k sc s)))
+      some s!"ok {showStore (run s sc)} {showScript sc} {outcome o s} {crashes}"
     | _, _ => some "bad-op"
   | ["roundtrip", st, now] =>
     match parseStore st, natOf? now with
